@@ -961,6 +961,10 @@ func (f *framer) parsePreparedMetadata() preparedMetadata {
 
 	if f.proto >= protoVersion4 {
 		pkeyCount := f.readInt()
+		if pkeyCount < 0 || pkeyCount > len(f.buf)/2 {
+			// every index takes two bytes of the body
+			panic(fmt.Errorf("received invalid partition key index count: %d", pkeyCount))
+		}
 		pkeys := make([]int, pkeyCount)
 		for i := 0; i < pkeyCount; i++ {
 			pkeys[i] = int(f.readShort())
